@@ -812,4 +812,407 @@ example : tryMapCoords (fun p => if p.x < 0 then .error p else .ok p)
       (.collection [.point ⟨1, 1⟩, .lineString [⟨2, 0⟩, ⟨-1, 0⟩, ⟨-2, 5⟩]]) = .error ⟨-1, 0⟩ := by
   norm_num [tryMapCoords, tryMapCoordsList, tryMapList]
 
+/-! ## 5. `bounding_rect` is the component-wise minimum and maximum of the (exterior) traversal -/
+
+/-- `lo` / `hi` are the minimum / maximum of the non-empty list `vs`: they bound every member
+and are members. -/
+def IsMinMax (vs : List Rat) (lo hi : Rat) : Prop :=
+  (∀ v ∈ vs, lo ≤ v ∧ v ≤ hi) ∧ lo ∈ vs ∧ hi ∈ vs
+
+/-- `(mn, mx)` is the component-wise minimum and maximum of the coordinates `cs`. -/
+def IsBBox (cs : List Pt) (mn mx : Pt) : Prop :=
+  IsMinMax (cs.map Pt.x) mn.x mx.x ∧ IsMinMax (cs.map Pt.y) mn.y mx.y
+
+theorem IsMinMax.le {vs lo hi} (h : IsMinMax vs lo hi) : lo ≤ hi := (h.1 lo h.2.1).2
+
+theorem IsMinMax.ne_nil {vs lo hi} (h : IsMinMax vs lo hi) : vs ≠ [] :=
+  List.ne_nil_of_mem h.2.1
+
+/-- [T] minimum and maximum are unique: `IsMinMax` determines `lo` and `hi`. -/
+theorem IsMinMax.unique {vs lo hi lo' hi'} (h : IsMinMax vs lo hi) (h' : IsMinMax vs lo' hi') :
+    lo = lo' ∧ hi = hi' :=
+  ⟨le_antisymm (h.1 lo' h'.2.1).1 (h'.1 lo h.2.1).1, le_antisymm (h'.1 hi h.2.2).2 (h.1 hi' h'.2.2).2⟩
+
+/-- [T] `IsBBox` spelled out on coordinates: every coordinate is inside, every bound is attained. -/
+theorem isBBox_iff (cs : List Pt) (mn mx : Pt) :
+    IsBBox cs mn mx ↔
+      (∀ p ∈ cs, mn.x ≤ p.x ∧ p.x ≤ mx.x ∧ mn.y ≤ p.y ∧ p.y ≤ mx.y) ∧
+      (∃ p ∈ cs, p.x = mn.x) ∧ (∃ p ∈ cs, p.x = mx.x) ∧
+      (∃ p ∈ cs, p.y = mn.y) ∧ (∃ p ∈ cs, p.y = mx.y) := by
+  simp only [IsBBox, IsMinMax, List.mem_map, forall_exists_index, and_imp,
+    forall_apply_eq_imp_iff₂]
+  constructor
+  · rintro ⟨⟨hx, hx1, hx2⟩, ⟨hy, hy1, hy2⟩⟩
+    exact ⟨fun p hp => ⟨(hx p hp).1, (hx p hp).2, (hy p hp).1, (hy p hp).2⟩, hx1, hx2, hy1, hy2⟩
+  · rintro ⟨h, hx1, hx2, hy1, hy2⟩
+    exact ⟨⟨fun p hp => ⟨(h p hp).1, (h p hp).2.1⟩, hx1, hx2⟩,
+      ⟨fun p hp => ⟨(h p hp).2.2.1, (h p hp).2.2.2⟩, hy1, hy2⟩⟩
+
+/-! ### the running `get_min_max` fold -/
+
+private def mmStep (acc : Rat × Rat) (v : Rat) : Rat × Rat := getMinMax v acc.1 acc.2
+
+private theorem getMinMax_spec (v mn mx : Rat) (h : mn ≤ mx) :
+    (getMinMax v mn mx).1 ≤ (getMinMax v mn mx).2 ∧
+    (getMinMax v mn mx).1 ≤ mn ∧ mx ≤ (getMinMax v mn mx).2 ∧
+    (getMinMax v mn mx).1 ≤ v ∧ v ≤ (getMinMax v mn mx).2 ∧
+    ((getMinMax v mn mx).1 = mn ∨ (getMinMax v mn mx).1 = v) ∧
+    ((getMinMax v mn mx).2 = mx ∨ (getMinMax v mn mx).2 = v) := by
+  by_cases h1 : v > mx
+  · have e : getMinMax v mn mx = (mn, v) := by simp [getMinMax, h1]
+    rw [e]
+    exact ⟨le_of_lt (lt_of_le_of_lt h h1), le_refl _, le_of_lt h1, le_of_lt (lt_of_le_of_lt h h1),
+      le_refl _, Or.inl rfl, Or.inr rfl⟩
+  · by_cases h2 : v < mn
+    · have e : getMinMax v mn mx = (v, mx) := by simp [getMinMax, h1, h2]
+      rw [e]
+      exact ⟨le_trans (le_of_lt h2) h, le_of_lt h2, le_refl _, le_refl _, le_trans (le_of_lt h2) h,
+        Or.inr rfl, Or.inl rfl⟩
+    · have e : getMinMax v mn mx = (mn, mx) := by simp [getMinMax, h1, h2]
+      rw [e]
+      exact ⟨h, le_refl _, le_refl _, not_lt.1 h2, not_lt.1 h1, Or.inl rfl, Or.inl rfl⟩
+
+/-- Invariant of the fold (this is where `min ≤ max` is needed: the `else if` skips the
+`p < min` test after `p > max`, which is sound only because `min ≤ max`). -/
+private theorem mmFold_spec : ∀ (vs : List Rat) (acc : Rat × Rat), acc.1 ≤ acc.2 →
+    (vs.foldl mmStep acc).1 ≤ (vs.foldl mmStep acc).2 ∧
+    (vs.foldl mmStep acc).1 ≤ acc.1 ∧ acc.2 ≤ (vs.foldl mmStep acc).2 ∧
+    (∀ v ∈ vs, (vs.foldl mmStep acc).1 ≤ v ∧ v ≤ (vs.foldl mmStep acc).2) ∧
+    ((vs.foldl mmStep acc).1 = acc.1 ∨ (vs.foldl mmStep acc).1 ∈ vs) ∧
+    ((vs.foldl mmStep acc).2 = acc.2 ∨ (vs.foldl mmStep acc).2 ∈ vs)
+  | [], acc, h => by simp [h]
+  | v :: vs, acc, h => by
+      obtain ⟨s1, s2, s3, s4, s5, s6, s7⟩ := getMinMax_spec v acc.1 acc.2 h
+      obtain ⟨i1, i2, i3, i4, i5, i6⟩ := mmFold_spec vs (mmStep acc v) s1
+      simp only [List.foldl_cons, List.mem_cons, forall_eq_or_imp]
+      simp only [mmStep] at i2 i3 i5 i6
+      refine ⟨i1, le_trans i2 s2, le_trans s3 i3, ⟨⟨le_trans i2 s4, le_trans s5 i3⟩, i4⟩, ?_, ?_⟩
+      · rcases i5 with e | m
+        · rcases s6 with e' | e'
+          · exact Or.inl (e.trans e')
+          · exact Or.inr (Or.inl (e.trans e'))
+        · exact Or.inr (Or.inr m)
+      · rcases i6 with e | m
+        · rcases s7 with e' | e'
+          · exact Or.inl (e.trans e')
+          · exact Or.inr (Or.inl (e.trans e'))
+        · exact Or.inr (Or.inr m)
+
+private theorem mmFold_isMinMax (v0 : Rat) (vs : List Rat) :
+    IsMinMax (v0 :: vs) (vs.foldl mmStep (v0, v0)).1 (vs.foldl mmStep (v0, v0)).2 := by
+  obtain ⟨_, i2, i3, i4, i5, i6⟩ := mmFold_spec vs (v0, v0) (le_refl _)
+  refine ⟨?_, ?_, ?_⟩
+  · intro v hv
+    rcases List.mem_cons.1 hv with rfl | hv
+    · exact ⟨i2, i3⟩
+    · exact i4 v hv
+  · rcases i5 with e | m
+    · rw [e]; exact List.mem_cons_self ..
+    · exact List.mem_cons_of_mem _ m
+  · rcases i6 with e | m
+    · rw [e]; exact List.mem_cons_self ..
+    · exact List.mem_cons_of_mem _ m
+
+private theorem bbFold_split (rest : List Pt) : ∀ (a b : Rat × Rat),
+    rest.foldl (fun (acc : (Rat × Rat) × (Rat × Rat)) q =>
+      (getMinMax q.x acc.1.1 acc.1.2, getMinMax q.y acc.2.1 acc.2.2)) (a, b)
+    = ((rest.map Pt.x).foldl mmStep a, (rest.map Pt.y).foldl mmStep b) := by
+  induction rest with
+  | nil => intro a b; rfl
+  | cons q rest ih => intro a b; simp only [List.foldl_cons, List.map_cons, ih]; rfl
+
+private theorem rectNewPts_of_le {a b : Pt} (hx : a.x ≤ b.x) (hy : a.y ≤ b.y) :
+    rectNewPts a b = (a, b) := by
+  simp [rectNewPts, rectNew_of_le hx hy]
+
+private theorem rectNewPts_mk {ax ay bx by' : Rat} (hx : ax ≤ bx) (hy : ay ≤ by') :
+    rectNewPts ⟨ax, ay⟩ ⟨bx, by'⟩ = (⟨ax, ay⟩, ⟨bx, by'⟩) :=
+  rectNewPts_of_le (a := ⟨ax, ay⟩) (b := ⟨bx, by'⟩) hx hy
+
+/-- Closed form of `get_bounding_rect` on a non-empty slice: the final `Rect::new` is the
+identity because the fold keeps `min ≤ max`. -/
+private theorem getBoundingRect_cons (p : Pt) (rest : List Pt) :
+    getBoundingRect (p :: rest) =
+      some (⟨((rest.map Pt.x).foldl mmStep (p.x, p.x)).1, ((rest.map Pt.y).foldl mmStep (p.y, p.y)).1⟩,
+            ⟨((rest.map Pt.x).foldl mmStep (p.x, p.x)).2, ((rest.map Pt.y).foldl mmStep (p.y, p.y)).2⟩) := by
+  have hx := (mmFold_isMinMax p.x (rest.map Pt.x)).le
+  have hy := (mmFold_isMinMax p.y (rest.map Pt.y)).le
+  simp only [getBoundingRect, bbFold_split]
+  rw [rectNewPts_mk hx hy]
+
+/-- [T] `get_bounding_rect` is `None` exactly on the empty slice. -/
+theorem getBoundingRect_none_iff (cs : List Pt) : getBoundingRect cs = none ↔ cs = [] := by
+  cases cs with
+  | nil => simp [getBoundingRect]
+  | cons p rest => simp [getBoundingRect_cons]
+
+/-- The specification of an optional bounding box of the coordinates `cs`. -/
+def BBoxSpec (o : Option (Pt × Pt)) (cs : List Pt) : Prop :=
+  match o with
+  | none => cs = []
+  | some r => IsBBox cs r.1 r.2
+
+private theorem getBoundingRect_spec (cs : List Pt) : BBoxSpec (getBoundingRect cs) cs := by
+  cases cs with
+  | nil => simp [getBoundingRect, BBoxSpec]
+  | cons p rest =>
+    rw [getBoundingRect_cons]
+    exact ⟨mmFold_isMinMax p.x (rest.map Pt.x), mmFold_isMinMax p.y (rest.map Pt.y)⟩
+
+/-- [T] `get_bounding_rect` returns the component-wise minimum and maximum: every coordinate is
+inside, and each of the four bounds is attained by some coordinate. -/
+theorem getBoundingRect_bounds (cs : List Pt) (mn mx : Pt) (h : getBoundingRect cs = some (mn, mx)) :
+    (∀ p ∈ cs, mn.x ≤ p.x ∧ p.x ≤ mx.x ∧ mn.y ≤ p.y ∧ p.y ≤ mx.y) ∧
+    (∃ p ∈ cs, p.x = mn.x) ∧ (∃ p ∈ cs, p.x = mx.x) ∧
+    (∃ p ∈ cs, p.y = mn.y) ∧ (∃ p ∈ cs, p.y = mx.y) := by
+  have := getBoundingRect_spec cs
+  rw [h] at this
+  exact (isBBox_iff cs mn mx).1 this
+
+example : getBoundingRect [⟨3, 1⟩, ⟨-2, 5⟩, ⟨0, -7⟩, ⟨3, 5⟩] = some (⟨-2, -7⟩, ⟨3, 5⟩) := by
+  simp only [getBoundingRect, List.foldl, getMinMax, rectNewPts, SM.rectNew]
+  norm_num
+
+/-! ### lifting through the geometry tree -/
+
+private theorem partialMin_spec (a b : Rat) :
+    partialMin a b ≤ a ∧ partialMin a b ≤ b ∧ (partialMin a b = a ∨ partialMin a b = b) := by
+  by_cases h : a < b
+  · have e : partialMin a b = a := by simp [partialMin, h]
+    rw [e]; exact ⟨le_refl _, le_of_lt h, Or.inl rfl⟩
+  · have e : partialMin a b = b := by simp [partialMin, h]
+    rw [e]; exact ⟨not_lt.1 h, le_refl _, Or.inr rfl⟩
+
+private theorem partialMax_spec (a b : Rat) :
+    a ≤ partialMax a b ∧ b ≤ partialMax a b ∧ (partialMax a b = a ∨ partialMax a b = b) := by
+  by_cases h : a > b
+  · have e : partialMax a b = a := by simp [partialMax, h]
+    rw [e]; exact ⟨le_refl _, le_of_lt h, Or.inl rfl⟩
+  · have e : partialMax a b = b := by simp [partialMax, h]
+    rw [e]; exact ⟨not_lt.1 h, le_refl _, Or.inr rfl⟩
+
+private theorem isMinMax_append {l1 l2 : List Rat} {a1 b1 a2 b2 : Rat}
+    (h1 : IsMinMax l1 a1 b1) (h2 : IsMinMax l2 a2 b2) :
+    IsMinMax (l1 ++ l2) (partialMin a1 a2) (partialMax b1 b2) := by
+  obtain ⟨m1, m2, m3⟩ := partialMin_spec a1 a2
+  obtain ⟨x1, x2, x3⟩ := partialMax_spec b1 b2
+  refine ⟨?_, ?_, ?_⟩
+  · intro v hv
+    rcases List.mem_append.1 hv with hv | hv
+    · exact ⟨le_trans m1 (h1.1 v hv).1, le_trans (h1.1 v hv).2 x1⟩
+    · exact ⟨le_trans m2 (h2.1 v hv).1, le_trans (h2.1 v hv).2 x2⟩
+  · rcases m3 with e | e <;> rw [e]
+    · exact List.mem_append_left _ h1.2.1
+    · exact List.mem_append_right _ h2.2.1
+  · rcases x3 with e | e <;> rw [e]
+    · exact List.mem_append_left _ h1.2.2
+    · exact List.mem_append_right _ h2.2.2
+
+/-- [T] `bounding_rect_merge` of the boxes of two coordinate sets is the box of their union. -/
+theorem bboxMerge_spec {l1 l2 : List Pt} {r1 r2 : Pt × Pt}
+    (h1 : IsBBox l1 r1.1 r1.2) (h2 : IsBBox l2 r2.1 r2.2) :
+    IsBBox (l1 ++ l2) (bboxMerge r1 r2).1 (bboxMerge r1 r2).2 := by
+  have hx := isMinMax_append h1.1 h2.1
+  have hy := isMinMax_append h1.2 h2.2
+  unfold bboxMerge
+  rw [rectNewPts_mk hx.le hy.le]
+  simp only [IsBBox, List.map_append]
+  exact ⟨hx, hy⟩
+
+private theorem bboxFoldStep_spec {l1 l2 : List Pt} {a o : Option (Pt × Pt)}
+    (h1 : BBoxSpec a l1) (h2 : BBoxSpec o l2) : BBoxSpec (bboxFoldStep a o) (l1 ++ l2) := by
+  cases a with
+  | none =>
+    cases o with
+    | none => simp only [BBoxSpec] at h1 h2 ⊢; simp [bboxFoldStep, h1, h2]
+    | some r => simp only [BBoxSpec] at h1 h2 ⊢; simpa [bboxFoldStep, h1] using h2
+  | some r1 =>
+    cases o with
+    | none => simp only [BBoxSpec] at h1 h2 ⊢; simpa [bboxFoldStep, h2] using h1
+    | some r2 => exact bboxMerge_spec h1 h2
+
+mutual
+/-- Every `Rect` member satisfies `min ≤ max` (the C18 invariant `rect_new_le`: every `Rect`
+built through the API satisfies it; the model type admits others). -/
+def rectsValid : Geom → Bool
+  | .rect mn mx => decide (mn.x ≤ mx.x) && decide (mn.y ≤ mx.y)
+  | .collection gs => rectsValidList gs
+  | .point _ | .line _ _ | .lineString _ | .polygon _ | .multiPoint _ | .multiLineString _
+  | .multiPolygon _ | .triangle _ _ _ => true
+def rectsValidList : List Geom → Bool
+  | [] => true
+  | g :: gs => rectsValid g && rectsValidList gs
+end
+
+private theorem isMinMax_pair (u v : Rat) :
+    IsMinMax [u, v] (if u < v then (u, v) else (v, u)).1 (if u < v then (u, v) else (v, u)).2 := by
+  by_cases h : u < v
+  · rw [if_pos h]
+    refine ⟨?_, by simp, by simp⟩
+    intro w hw
+    simp only [List.mem_cons, List.not_mem_nil, or_false] at hw
+    rcases hw with rfl | rfl
+    · exact ⟨le_refl _, le_of_lt h⟩
+    · exact ⟨le_of_lt h, le_refl _⟩
+  · rw [if_neg h]
+    refine ⟨?_, by simp, by simp⟩
+    intro w hw
+    simp only [List.mem_cons, List.not_mem_nil, or_false] at hw
+    rcases hw with rfl | rfl
+    · exact ⟨not_lt.1 h, le_refl _⟩
+    · exact ⟨le_refl _, not_lt.1 h⟩
+
+private theorem rectNewPts_isBBox (a b : Pt) : IsBBox [a, b] (rectNewPts a b).1 (rectNewPts a b).2 := by
+  have hx := isMinMax_pair a.x b.x
+  have hy := isMinMax_pair a.y b.y
+  simp only [IsBBox, rectNewPts, SM.rectNew, List.map]
+  exact ⟨hx, hy⟩
+
+private theorem rect_isBBox (mn mx : Pt) (hx : mn.x ≤ mx.x) (hy : mn.y ≤ mx.y) :
+    IsBBox (rectCoords mn mx) mn mx := by
+  simp only [IsBBox, rectCoords, List.map]
+  refine ⟨⟨?_, by simp, by simp⟩, ⟨?_, by simp, by simp⟩⟩
+  · intro w hw
+    simp only [List.mem_cons, List.not_mem_nil, or_false] at hw
+    rcases hw with rfl | rfl | rfl | rfl
+    exacts [⟨hx, le_refl _⟩, ⟨hx, le_refl _⟩, ⟨le_refl _, hx⟩, ⟨le_refl _, hx⟩]
+  · intro w hw
+    simp only [List.mem_cons, List.not_mem_nil, or_false] at hw
+    rcases hw with rfl | rfl | rfl | rfl
+    exacts [⟨le_refl _, hy⟩, ⟨hy, le_refl _⟩, ⟨hy, le_refl _⟩, ⟨le_refl _, hy⟩]
+
+mutual
+/-- [T] the bounding box the code computes is `None` when the exterior traversal is empty and
+otherwise the component-wise min/max of the exterior traversal — every geometry, every nesting
+(collections merge with `bounding_rect_merge`, skipping empty members). -/
+theorem bbox_spec : ∀ g : Geom, rectsValid g = true → BBoxSpec (boundingRect g) (exteriorCoords g)
+  | .point p, _ => by
+      have := rectNewPts_isBBox p p
+      simp only [boundingRect, exteriorCoords, BBoxSpec]
+      simp only [IsBBox, IsMinMax, List.map, List.mem_cons, List.not_mem_nil, or_false, or_self,
+        forall_eq] at this ⊢
+      exact this
+  | .line a b, _ => rectNewPts_isBBox a b
+  | .lineString cs, _ => getBoundingRect_spec cs
+  | .polygon p, _ => getBoundingRect_spec p.ext
+  | .multiPoint ps, _ => getBoundingRect_spec ps
+  | .multiLineString ls, _ => getBoundingRect_spec ls.flatten
+  | .multiPolygon ps, _ => getBoundingRect_spec _
+  | .rect mn mx, h => by
+      simp only [rectsValid, Bool.and_eq_true, decide_eq_true_eq] at h
+      exact rect_isBBox mn mx h.1 h.2
+  | .triangle a b c, _ => getBoundingRect_spec [a, b, c]
+  | .collection gs, h => by
+      simp only [rectsValid] at h
+      have := bbox_spec_list gs none [] rfl h
+      simpa only [boundingRect, exteriorCoords, List.nil_append] using this
+theorem bbox_spec_list : ∀ (gs : List Geom) (acc : Option (Pt × Pt)) (pre : List Pt),
+    BBoxSpec acc pre → rectsValidList gs = true →
+      BBoxSpec (boundingRectList acc gs) (pre ++ exteriorCoordsList gs)
+  | [], acc, pre, ha, _ => by simpa [boundingRectList, exteriorCoordsList] using ha
+  | g :: gs, acc, pre, ha, h => by
+      simp only [rectsValidList, Bool.and_eq_true] at h
+      have hs := bboxFoldStep_spec ha (bbox_spec g h.1)
+      have := bbox_spec_list gs _ _ hs h.2
+      simpa only [boundingRectList, exteriorCoordsList, List.append_assoc] using this
+end
+
+/-- [T] `bounding_rect` is the component-wise minimum and maximum of the *exterior* traversal
+(that it ranges over the exterior only is known finding K6; see `bbox_bounds_coords` and
+`bbox_ignores_hole_witness`): every exterior coordinate is inside and every bound is attained.
+Hypothesis: Rect members are valid (`min ≤ max`, the C18 invariant) — `Rect::bounding_rect`
+returns the stored corners as they are. -/
+theorem bbox_bounds (g : Geom) (hv : rectsValid g = true) (mn mx : Pt)
+    (h : boundingRect g = some (mn, mx)) :
+    (∀ p ∈ exteriorCoords g, mn.x ≤ p.x ∧ p.x ≤ mx.x ∧ mn.y ≤ p.y ∧ p.y ≤ mx.y) ∧
+    (∃ p ∈ exteriorCoords g, p.x = mn.x) ∧ (∃ p ∈ exteriorCoords g, p.x = mx.x) ∧
+    (∃ p ∈ exteriorCoords g, p.y = mn.y) ∧ (∃ p ∈ exteriorCoords g, p.y = mx.y) := by
+  have := bbox_spec g hv
+  rw [h] at this
+  exact (isBBox_iff _ mn mx).1 this
+
+/-- [T] … and it is the only such pair: any `(mn', mx')` bounding the exterior traversal and
+attained by it equals the computed box. -/
+theorem bbox_unique (g : Geom) (hv : rectsValid g = true) (mn mx mn' mx' : Pt)
+    (h : boundingRect g = some (mn, mx)) (h' : IsBBox (exteriorCoords g) mn' mx') :
+    mn = mn' ∧ mx = mx' := by
+  have := bbox_spec g hv
+  rw [h] at this
+  have hx := this.1.unique h'.1
+  have hy := this.2.unique h'.2
+  obtain ⟨a, b⟩ := mn; obtain ⟨c, d⟩ := mx; obtain ⟨a', b'⟩ := mn'; obtain ⟨c', d'⟩ := mx'
+  simp only at hx hy
+  simp [hx.1, hx.2, hy.1, hy.2]
+
+example : (∀ p ∈ exteriorCoords (.collection [.point ⟨3, 1⟩, .multiPoint [], .lineString [⟨-2, 5⟩, ⟨0, -7⟩]]),
+      (-2 : Rat) ≤ p.x ∧ p.x ≤ 3 ∧ (-7 : Rat) ≤ p.y ∧ p.y ≤ 5) := by
+  have h : boundingRect (.collection [.point ⟨3, 1⟩, .multiPoint [], .lineString [⟨-2, 5⟩, ⟨0, -7⟩]])
+      = some (⟨-2, -7⟩, ⟨3, 5⟩) := by
+    simp only [boundingRect, boundingRectList, bboxFoldStep, bboxMerge, getBoundingRect, List.foldl,
+      getMinMax, rectNewPts, SM.rectNew, partialMin, partialMax]
+    norm_num
+  exact (bbox_bounds _ (by decide) _ _ h).1
+
+private theorem bboxFoldStep_none_iff (a o : Option (Pt × Pt)) :
+    bboxFoldStep a o = none ↔ a = none ∧ o = none := by
+  cases a <;> cases o <;> simp [bboxFoldStep]
+
+mutual
+/-- [T] `bounding_rect` is `None` exactly when the exterior traversal is empty (Point, Line,
+Rect, Triangle — whose Rust return type is not optional — are never `None`, and never empty). -/
+theorem bbox_none_iff : ∀ g : Geom, boundingRect g = none ↔ exteriorCoords g = []
+  | .point _ => by simp [boundingRect, exteriorCoords]
+  | .line _ _ => by simp [boundingRect, exteriorCoords]
+  | .lineString cs => getBoundingRect_none_iff cs
+  | .polygon p => getBoundingRect_none_iff p.ext
+  | .multiPoint ps => getBoundingRect_none_iff ps
+  | .multiLineString ls => getBoundingRect_none_iff ls.flatten
+  | .multiPolygon ps => getBoundingRect_none_iff _
+  | .rect _ _ => by simp [boundingRect, exteriorCoords, rectCoords]
+  | .triangle a b c => by simp [boundingRect, exteriorCoords, getBoundingRect_none_iff]
+  | .collection gs => by
+      have := bbox_none_iff_list gs none
+      simpa only [boundingRect, exteriorCoords, true_and] using this
+theorem bbox_none_iff_list : ∀ (gs : List Geom) (acc : Option (Pt × Pt)),
+    boundingRectList acc gs = none ↔ acc = none ∧ exteriorCoordsList gs = []
+  | [], acc => by simp [boundingRectList, exteriorCoordsList]
+  | g :: gs, acc => by
+      simp only [boundingRectList, exteriorCoordsList, bbox_none_iff_list gs, bboxFoldStep_none_iff,
+        bbox_none_iff g, List.append_eq_nil_iff, and_assoc]
+end
+
+/-- [T] for geometries whose polygons have no interior coordinates (in particular: without
+polygons) the property's wording holds literally: `None` exactly when `coords_iter` is empty … -/
+theorem bbox_none_iff_coords (g : Geom) (h : noInteriors g = true) :
+    boundingRect g = none ↔ coordsIter g = [] := by
+  rw [bbox_none_iff, exterior_eq_of_noInteriors g h]
+
+theorem bbox_none_iff_coords_of_noPolygons (g : Geom) (h : noPolygons g = true) :
+    boundingRect g = none ↔ coordsIter g = [] :=
+  bbox_none_iff_coords g (noInteriors_of_noPolygons g h)
+
+/-- [T] … and the box is the component-wise min/max of all traversed coordinates. -/
+theorem bbox_bounds_coords (g : Geom) (hv : rectsValid g = true) (hn : noInteriors g = true)
+    (mn mx : Pt) (h : boundingRect g = some (mn, mx)) :
+    (∀ p ∈ coordsIter g, mn.x ≤ p.x ∧ p.x ≤ mx.x ∧ mn.y ≤ p.y ∧ p.y ≤ mx.y) ∧
+    (∃ p ∈ coordsIter g, p.x = mn.x) ∧ (∃ p ∈ coordsIter g, p.x = mx.x) ∧
+    (∃ p ∈ coordsIter g, p.y = mn.y) ∧ (∃ p ∈ coordsIter g, p.y = mx.y) := by
+  rw [← exterior_eq_of_noInteriors g hn]
+  exact bbox_bounds g hv mn mx h
+
+example : boundingRect (.collection [.multiPoint [], .collection [.lineString []]]) = none :=
+  (bbox_none_iff_coords_of_noPolygons _ (by decide)).2 rfl
+
+/-- [T] K6 witness: a polygon whose hole leaves the shell — the computed box, (0,0)–(1,1), does
+not contain the traversed hole coordinate (6,5), so "min/max of the traversed coordinates"
+fails for polygons with interior rings outside the exterior's box. -/
+theorem bbox_ignores_hole_witness :
+    let g : Geom := .polygon ⟨[⟨0, 0⟩, ⟨1, 0⟩, ⟨1, 1⟩, ⟨0, 0⟩], [[⟨5, 5⟩, ⟨6, 5⟩, ⟨6, 6⟩, ⟨5, 5⟩]]⟩
+    boundingRect g = some (⟨0, 0⟩, ⟨1, 1⟩) ∧ (⟨6, 5⟩ : Pt) ∈ coordsIter g := by
+  intro g
+  constructor
+  · simp only [g, boundingRect, getBoundingRect, List.foldl, getMinMax, rectNewPts, SM.rectNew]
+    norm_num
+  · simp [g, coordsIter, Poly.coords]
+
 end Geo.Proofs.C19
